@@ -339,6 +339,22 @@ pub fn run_backend<B: Backend>(rec: &mut Recorder, thorough: bool, seed: u64) {
             }
         }
     }
+    // the key-sealing public key is decoded by its own code path: byte strings of the right length that are no curve point, and the
+    // empty string, are offered to it explicitly (the bulk of the random offers goes to the signing-key role only)
+    offers.push(Offer { cls: "empty", bytes: Vec::new() });
+    if B::VER == 2 || B::VER == 4 {
+        let mut n = 0;
+        while n < 24 {
+            let c = rng.bytes(32);
+            if !ed_on_curve(&c).0 {
+                offers.push(Offer { cls: "ed-off-curve", bytes: c });
+                n += 1;
+            }
+        }
+        let mut two = vec![0u8; 32];
+        two[0] = 2;
+        offers.push(Offer { cls: if ed_on_curve(&two).0 { "ed-small" } else { "ed-off-curve" }, bytes: two });
+    }
     for o in generic.iter().chain(offers.iter()) {
         observe::<B, Public>(rec, "public", o, &none);
         if o.cls != "random" && o.cls != "zero" && o.cls != "ones" {
